@@ -86,6 +86,9 @@ def h : Handler := fun op j =>
   | "water_diffusivity" => do
       let a ← floatArgs j 1
       pure (withMsgs (waterDiffusivity a[0]!) (waterDiffusivityWarnMsgs a[0]!))
+  | "water_diffusivity_err" => do
+      let a ← floatArgs j 3
+      pure (withMsgs (waterDiffusivityErr a[0]! a[1]! a[2]!) (waterDiffusivityErrWarnMsgs a[0]! a[1]! a[2]!))
   | "water_permittivity" => do
       let a ← floatArgs j 2
       pure (withMsgs (waterPermittivity a[0]! a[1]!) (waterPermittivityWarnMsgs a[0]! a[1]!))
@@ -144,6 +147,9 @@ def h : Handler := fun op j =>
   | "water_diffusivity_u1" => do
       let a ← floatArgs j 4
       pure (withMsgs (waterDiffusivityU a[0]! a[1]! a[2]! a[3]!) (waterDiffusivityUWarnMsgs a[0]! a[1]! a[2]! a[3]!))
+  | "water_diffusivity_err_u1" => do
+      let a ← floatArgs j 6
+      pure (withMsgs (waterDiffusivityErrU a[0]! a[1]! a[2]! a[3]! a[4]! a[5]!) (waterDiffusivityErrUWarnMsgs a[0]! a[1]! a[2]! a[3]! a[4]! a[5]!))
   | "water_permittivity_u1" => do
       let a ← floatArgs j 4
       pure (withMsgs (waterPermittivityU a[0]! a[1]! a[2]! a[3]!) (waterPermittivityUWarnMsgs a[0]! a[1]! a[2]! a[3]!))
@@ -152,7 +158,7 @@ def h : Handler := fun op j =>
       pure (withMsgs (sulfuricAcidDensityU a[0]! a[1]! a[2]! a[3]! a[4]!) (sulfuricTUWarnMsgs a[0]! a[1]! a[2]! a[3]! a[4]!))
   | "henry_call_u1" => do
       let a ← floatArgs j 4
-      pure (bits ((← henryOf j a).callU a[0]! a[3]!))
+      pure (bits ((← henryOf j a).callWithUnits a[0]! a[3]!))
   | "nernst_u1" => do
       let a ← floatArgs j 8
       pure (bits (nernstPotentialU a[0]! a[1]! a[2]! a[3]! a[4]! a[5]! a[6]! a[7]!))
@@ -172,6 +178,12 @@ def h : Handler := fun op j =>
   | "water_diffusivity_u2" => do
       let a ← uvArgs j 4
       pure (showUV (waterDiffusivityU a[0]! a[1]! a[2]! a[3]!))
+  | "water_diffusivity_err_u2" => do
+      let a ← uvArgs j 6
+      pure (showUV (waterDiffusivityErrU a[0]! a[1]! a[2]! a[3]! a[4]! a[5]!))
+  | "henry_t0_u2" => do
+      let a ← uvArgs j 5
+      pure (showUV (henryHAtTU a[0]! a[1]! a[2]! a[3]! a[4]!))
   | "water_permittivity_u2" => do
       let a ← uvArgs j 4
       pure (showUV (waterPermittivityU a[0]! a[1]! a[2]! a[3]!))
